@@ -105,6 +105,14 @@ func describeOperand(v ssa.Value) string {
 		}
 		return x.Value.ExactString()
 	case *ssa.Parameter:
+		if sub, ok := c05ParamSubst[x]; ok && sub != nil {
+			if _, again := sub.(*ssa.Parameter); again || true {
+				delete(c05ParamSubst, x) // guard against cycles
+				s := describeOperand(sub)
+				c05ParamSubst[x] = sub
+				return s
+			}
+		}
 		return x.Name()
 	case *ssa.Call:
 		o := CalleeObj(&x.Call)
@@ -246,6 +254,50 @@ func appendsFeeding(v ssa.Value) []*ssa.Call {
 func checkSkips(c *Ctx, rule string, fn *ssa.Function, what string, v ssa.Value, allowed map[string]string, required []string) {
 	p := c.P
 	construct := FuncName(fn) + "|" + what
+	// the list may be produced by a helper the loop was extracted into: analyse the loop
+	// there, describing the helper's parameters by the arguments of the call
+	c05ParamSubst = map[*ssa.Parameter]ssa.Value{}
+	defer func() { c05ParamSubst = nil }()
+	for depth := 0; depth < 2; depth++ {
+		vals, unk := Origins(v)
+		if unk || len(vals) != 1 {
+			break
+		}
+		call, idx, isCall := CallResult(vals[0])
+		if !isCall {
+			break
+		}
+		h := CalleeFunc(&call.Call)
+		if h == nil || h.Blocks == nil || !IsRepoFunc(h) {
+			break
+		}
+		var rv ssa.Value
+		ambiguous := false
+		for _, ri := range Returns(h) {
+			ret := ri.(*ssa.Return)
+			if ret.Block() == h.Recover || idx >= len(ret.Results) {
+				continue
+			}
+			x := ret.Results[idx]
+			if IsNilConst(x) {
+				continue
+			}
+			if rv != nil && rv != x {
+				ambiguous = true
+			}
+			rv = x
+		}
+		if rv == nil || ambiguous {
+			break
+		}
+		for i, pm := range h.Params {
+			if i < len(call.Call.Args) {
+				c05ParamSubst[pm] = call.Call.Args[i]
+			}
+		}
+		c.Fn(FuncName(h))
+		fn, v = h, rv
+	}
 	apps := appendsFeeding(v)
 	var inLoop []*ssa.Call
 	loops := Loops(fn)
@@ -292,6 +344,10 @@ func checkSkips(c *Ctx, rule string, fn *ssa.Function, what string, v ssa.Value,
 	sort.Strings(descs)
 	c.Check(bad == "", rule, construct, p.Pos(inLoop[0].Pos()), orDefault(bad, "recipients are skipped exactly when: "+strings.Join(descs, "; ")))
 }
+
+// c05ParamSubst: while a recipient loop is analysed inside a helper, the helper's
+// parameters are described by the caller's arguments.
+var c05ParamSubst map[*ssa.Parameter]ssa.Value
 
 // c05SkipAliases: equivalent spellings of an allowed exclusion.
 var c05SkipAliases = map[string]string{
